@@ -6,7 +6,7 @@ NOT_APPLICABLE = {
     "C16": "The token-tiling invariant is a pure function of the input string observed on a deterministic token stream; no state, schedule or fault is involved.",
 }
 PENDING = {p: "not claimed yet: the simulated scenario for this property is designed (DESIGN.md section 5) but its check is still being built" for p in
-           ["C05", "C08", "C10", "C12", "C13", "C17", "C19", "C20"]}
+           ["C05", "C08", "C12", "C13", "C17", "C19", "C20"]}
 
 TEXT = {
     "C04": {
@@ -50,5 +50,11 @@ TEXT = {
         "design_ref": "DESIGN.md section 5 C03, section 3.5",
         "level_text": "Seeded exploration: dependency graphs over n <= 4 tasks drawn from all edge sets (self-loops included) plus sparse graphs up to 8 tasks, every kind of request list, undefined/duplicate names, one failing command in half the runs, file dependencies and a second run in 30%; the map-iteration order inside the topological sort is drawn from the simulator's PRNG (so a given seed replays the same order). Oracle: closure exactly once (executed completely or reported skipped), dependencies first (log and --json), nothing outside the closure, nothing twice, and undefined/duplicate/cyclic selections are an error that runs nothing. Small spaces (n=2: 16 graphs, n=3: 512) are covered many times with different permutations; still sampling.",
         "level_note": "Trusted: the instrumented copy of collections/dag (two iteration sites changed) behaves like the original up to iteration order; the side-effect log as ground truth.",
+    },
+    "C10": {
+        "technique": "deterministic simulation with crash/torn-write enumeration: dry run lists every crash point and cache write, then kill at each point and at byte prefixes of each write, then seeded continuations judged by the reference model",
+        "design_ref": "DESIGN.md section 5 C10, section 3.4",
+        "level_text": "Fault enumeration per sampled history: for every generated prefix the killed invocation is first run dry to list all crash points (cache.init.*, run.task.before/after, task.cmd.before/after, run.dump.before/after) and all cache writes; it is then repeated from the same disk snapshot once per crash point and once per byte prefix of each cache write (quick: k in {0,1,len/2,len-1,len}+4 seeded; thorough: every k for a third of the cases), dying there or (1 in 3) returning ENOSPC/EIO; each is followed by 2-3 continuations of edits/reverts and unforced runs. A later reported skip must be legal w.r.t. last[] updated with what completed before the kill, a later failure must mention the cache. Exhaustive over crash points per history, sampling over histories.",
+        "level_note": "Trusted: kill = sentinel panic at a simhook.Point (deferred calls run but write no project state); torn write = O_TRUNC + k bytes, as os.WriteFile would leave it; no power-loss semantics.",
     },
 }
